@@ -171,7 +171,7 @@ def run_case(scn, ctx):
             if new_roots:
                 ctx.event("first_generation")
             try:
-                check_after_crash(w, top, final, scn, prior_asc, prior_gens, label, ctx, fgw)
+                check_after_crash(w, top, final, scn, prior_asc, prior_gens, label, ctx, fgw, alter_first=(k % 2 == 1))
             except Violation as v:
                 v.extra = dict(v.extra or {}, first_generation_window=fgw)
                 if ctx.known_inline(scn, v) is None:
@@ -182,7 +182,7 @@ def run_case(scn, ctx):
         return w.trace
 
 
-def check_after_crash(w, top, final, scn, prior_asc, prior_gens, label, ctx, fgw):
+def check_after_crash(w, top, final, scn, prior_asc, prior_gens, label, ctx, fgw, alter_first=False):
     now = w.asc_files(top)
     # (1) previously committed manifests untouched
     for p, data in prior_asc.items():
@@ -224,7 +224,25 @@ def check_after_crash(w, top, final, scn, prior_asc, prior_gens, label, ctx, fgw
                 require(e["digest"] == refhash.digest("c4", data), "half-present", "%s: chain digest of %s does not match the file" % (label, p))
     # next commands
     target = hist.wpath(scn, final["root"])
-    for cmd in ("info", "verify", "create_short", "info", "create", "info"):
+    order = ("info", "verify", "create_short", "info", "create", "info")
+    if alter_first:
+        # at every other crash point the first thing that happens afterwards is a create that meets altered files -
+        # those first recorded by the interrupted generation (if its manifest made it to disk) and an older one
+        import os as _os
+
+        prior_paths = set()
+        for p, data in prior_asc.items():
+            if p.endswith(".mhl"):
+                h = posixpath.dirname(posixpath.dirname(p))
+                prior_paths |= {h + "/" + r["path"] for r in refxml.read_manifest(data)["records"] if r["kind"] == "file"}
+        media = [f for f in w.media_files(target) if _os.path.isfile(w.abs(f))]
+        fresh = [f for f in media if f not in prior_paths]
+        for f in fresh[:2] + [f for f in media if f in prior_paths][:1]:
+            with open(w.abs(f), "ab") as fh:
+                fh.write(b" altered after the crash")
+            ctx.event("altered_before_next_create")
+        order = ("create", "info", "verify", "create_short", "info")
+    for cmd in order:
         if cmd == "info":
             res = w.info(target, frozen=LATER)
             allowed = (0, 30)
